@@ -14,6 +14,7 @@ package master
 //@   ensures[not_first_replica] result != firstReplicaIndex
 //@   ensures[def] result == ridx(firstReplicaIndex, secondReplicaShift, replicaIndex, numOfNode)
 //@ end
+//@ lemma ridx_range prop C18: all(f, "int", all(s, "int", all(j, "int", all(n, "int", (n >= 2 && f >= 0 && f < n && s >= 0 && j >= 0) ==> (ridx(f, s, j, n) >= 0 && ridx(f, s, j, n) < n && ridx(f, s, j, n) != f)))))
 //@ lemma ridx_injective prop C18: all(f, "int", all(s, "int", all(j1, "int", all(j2, "int", all(n, "int", (n >= 2 && f >= 0 && f < n && s >= 0 && j1 >= 0 && j1 < j2 && j2 < n - 1) ==> ridx(f, s, j1, n) != ridx(f, s, j2, n))))))
 
 //@ # ---- leader election: the first alive replica ------------------------------------------------------
@@ -43,29 +44,41 @@ package master
 //@   arith math
 //@   regions
 //@   opaque ridx
+//@   uses ridx_injective ridx_range
 //@   requires len(storageNodeIDs) >= 1 && len(storageNodeIDs) <= 100000
 //@   requires replicaFactor >= 1 && replicaFactor <= len(storageNodeIDs) && numOfShard >= 0 && numOfShard <= 1000000
 //@   requires fixedStartIndex >= 0 && fixedStartIndex <= 1000000 && int(startShardID) >= 0 && int(startShardID) <= 1000000
 //@   requires saOK(shardAssignment) && all(k, "models.ShardID", int(k) >= int(startShardID) ==> !has(shardAssignment.Shards, k))
+//@   requires nodesDistinct(storageNodeIDs) && models.noShare(shardAssignment)
 //@   modifies *
+//@   ensures[every_new_shard_gets_exactly_replica_factor_replicas] all(k, "models.ShardID", (int(k) >= int(startShardID) && int(k) < int(startShardID) + numOfShard) ==> (has(shardAssignment.Shards, k) && len(shardAssignment.Shards[k].Replicas) == replicaFactor && models.distinctReplicas(shardAssignment.Shards[k])))
 //@   ensures[every_new_shard_present] all(k, "models.ShardID", (int(k) >= int(startShardID) && int(k) < int(startShardID) + numOfShard) ==> has(shardAssignment.Shards, k))
 //@   ensures[existing_shards_stay] all(k, "models.ShardID", old(has(shardAssignment.Shards, k)) ==> (has(shardAssignment.Shards, k) && shardAssignment.Shards[k] == old(shardAssignment.Shards[k])))
 //@   ensures[existing_replica_lists_untouched] all(p, "*models.Replica", (p != nil && !fresh(p)) ==> (len(p.Replicas) == old(len(p.Replicas)) && forall(x, 0, len(p.Replicas), p.Replicas[x] == old(p.Replicas[x]))))
 //@   ensures[nothing_beyond] all(k, "models.ShardID", int(k) >= int(startShardID) + numOfShard ==> !has(shardAssignment.Shards, k))
 //@   ensures[only_new_ids_added] all(k, "models.ShardID", has(shardAssignment.Shards, k) ==> (old(has(shardAssignment.Shards, k)) || (int(k) >= int(startShardID) && int(k) < int(startShardID) + numOfShard)))
-//@   loop 1 invariant i >= 0 && i <= numOfShard && int(currentShardID) == int(startShardID) + i && saOK(shardAssignment) && nextReplicaShift >= fixedStartIndex && nextReplicaShift <= fixedStartIndex + i
+//@   loop 1 invariant i >= 0 && i <= numOfShard && int(currentShardID) == int(startShardID) + i && saOK(shardAssignment) && models.noShare(shardAssignment) && nextReplicaShift >= fixedStartIndex && nextReplicaShift <= fixedStartIndex + i
 //@   loop 1 invariant all(k, "models.ShardID", int(k) >= int(currentShardID) ==> !has(shardAssignment.Shards, k))
+//@   loop 1 invariant all(k, "models.ShardID", (int(k) >= int(startShardID) && int(k) < int(currentShardID)) ==> (has(shardAssignment.Shards, k) && fresh(shardAssignment.Shards[k]) && len(shardAssignment.Shards[k].Replicas) == replicaFactor && models.distinctReplicas(shardAssignment.Shards[k])))
 //@   loop 1 invariant all(k, "models.ShardID", (int(k) >= int(startShardID) && int(k) < int(currentShardID)) ==> has(shardAssignment.Shards, k))
 //@   loop 1 invariant all(k, "models.ShardID", has(shardAssignment.Shards, k) ==> (old(has(shardAssignment.Shards, k)) || (int(k) >= int(startShardID) && int(k) < int(currentShardID))))
 //@   loop 1 invariant all(k, "models.ShardID", old(has(shardAssignment.Shards, k)) ==> (has(shardAssignment.Shards, k) && shardAssignment.Shards[k] == old(shardAssignment.Shards[k])))
 //@   loop 1 invariant all(p, "*models.Replica", (p != nil && !fresh(p)) ==> (len(p.Replicas) == old(len(p.Replicas)) && forall(x, 0, len(p.Replicas), p.Replicas[x] == old(p.Replicas[x]))))
-//@   loop 2 invariant j >= 0 && saOK(shardAssignment) && has(shardAssignment.Shards, currentShardID) && fresh(shardAssignment.Shards[currentShardID]) && models.distinctReplicas(shardAssignment.Shards[currentShardID])
+//@   loop 2 invariant j >= 0 && saOK(shardAssignment) && models.noShare(shardAssignment) && has(shardAssignment.Shards, currentShardID) && fresh(shardAssignment.Shards[currentShardID]) && models.distinctReplicas(shardAssignment.Shards[currentShardID])
+//@   note not claimed: the first replica of shard k is storageNodeIDs[(k + start) % n] (round robin) and per-node counts differ by at most one - the symbolic modulus makes these invariants unstable for the solvers
+//@   loop 2 invariant[bounds] j <= replicaFactor - 1 && firstReplicaIndex >= 0 && firstReplicaIndex < numOfNode && numOfNode == len(storageNodeIDs)
+//@   loop 2 invariant[cnt] len(shardAssignment.Shards[currentShardID].Replicas) == j + 1
+//@   loop 2 invariant[firstrep] shardAssignment.Shards[currentShardID].Replicas[0] == storageNodeIDs[firstReplicaIndex]
+//@   loop 2 invariant[nodes_of_later_steps_are_not_in_the_list_yet] forall(q, j, len(storageNodeIDs) - 1, forall(x, 0, j + 1, shardAssignment.Shards[currentShardID].Replicas[x] != storageNodeIDs[ridx(firstReplicaIndex, nextReplicaShift, q, len(storageNodeIDs))]))
+//@   loop 2 invariant[others] forall(p, 1, j + 1, shardAssignment.Shards[currentShardID].Replicas[p] == storageNodeIDs[ridx(firstReplicaIndex, nextReplicaShift, p - 1, len(storageNodeIDs))])
+//@   loop 2 invariant[o_has] all(k, "models.ShardID", (int(k) >= int(startShardID) && int(k) < int(currentShardID)) ==> (has(shardAssignment.Shards, k) && fresh(shardAssignment.Shards[k])))
+//@   loop 2 invariant[o_len] all(k, "models.ShardID", (int(k) >= int(startShardID) && int(k) < int(currentShardID)) ==> len(shardAssignment.Shards[k].Replicas) == replicaFactor)
+//@   loop 2 invariant[o_dist] all(k, "models.ShardID", (int(k) >= int(startShardID) && int(k) < int(currentShardID)) ==> models.distinctReplicas(shardAssignment.Shards[k]))
 //@   loop 2 invariant all(k, "models.ShardID", int(k) > int(currentShardID) ==> !has(shardAssignment.Shards, k))
 //@   loop 2 invariant all(k, "models.ShardID", (int(k) >= int(startShardID) && int(k) < int(currentShardID)) ==> has(shardAssignment.Shards, k))
 //@   loop 2 invariant all(k, "models.ShardID", has(shardAssignment.Shards, k) ==> (old(has(shardAssignment.Shards, k)) || (int(k) >= int(startShardID) && int(k) <= int(currentShardID))))
 //@   loop 2 invariant all(k, "models.ShardID", old(has(shardAssignment.Shards, k)) ==> (has(shardAssignment.Shards, k) && shardAssignment.Shards[k] == old(shardAssignment.Shards[k])))
 //@   loop 2 invariant all(p, "*models.Replica", (p != nil && !fresh(p)) ==> (len(p.Replicas) == old(len(p.Replicas)) && forall(x, 0, len(p.Replicas), p.Replicas[x] == old(p.Replicas[x]))))
-//@   note attempted, not claimed: every new shard gets exactly replicaFactor distinct replicas and the first replica is storageNodeIDs[(shard+start) % n]; the inductive invariant (placed/ridx_injective) did not discharge within the quick timeout
 //@ end
 //@ # creation and growth refuse impossible requests (replica factor above the number of live nodes)
 //@ func ShardAssignment
@@ -73,7 +86,9 @@ package master
 //@   arith math
 //@   regions
 //@   requires cfg != nil && len(storageNodeIDs) <= 100000 && fixedStartIndex >= 0 && fixedStartIndex <= 1000000 && int(startShardID) == 0 && cfg.NumOfShard <= 1000000
+//@   requires nodesDistinct(storageNodeIDs)
 //@   modifies *
+//@   ensures[every_shard_gets_exactly_replica_factor_distinct_nodes] result1 == nil ==> all(k, "models.ShardID", (int(k) >= 0 && int(k) < old(cfg.NumOfShard)) ==> (has(result0.Shards, k) && len(result0.Shards[k].Replicas) == old(cfg.ReplicaFactor) && models.distinctReplicas(result0.Shards[k])))
 //@   ensures[error_cases] (old(cfg.NumOfShard) <= 0 || old(cfg.ReplicaFactor) <= 0 || old(cfg.ReplicaFactor) > len(storageNodeIDs)) == (result1 != nil)
 //@   ensures[all_shards_present] result1 == nil ==> (result0 != nil && all(k, "models.ShardID", (int(k) >= 0 && int(k) < old(cfg.NumOfShard)) == has(result0.Shards, k)))
 //@ end
@@ -83,7 +98,9 @@ package master
 //@   regions
 //@   requires cfg != nil && saOK(shardAssignment) && len(storageNodeIDs) <= 100000 && fixedStartIndex >= 0 && fixedStartIndex <= 1000000 && cfg.NumOfShard <= 1000000 && cfg.NumOfShard >= 0 - 1000000 && len(shardAssignment.Shards) <= 1000000
 //@   requires int(startShardID) == len(shardAssignment.Shards) && int(startShardID) >= 0 && all(k, "models.ShardID", has(shardAssignment.Shards, k) == (int(k) >= 0 && int(k) < int(startShardID)))
+//@   requires nodesDistinct(storageNodeIDs) && models.noShare(shardAssignment)
 //@   modifies *
+//@   ensures[every_added_shard_gets_exactly_replica_factor_distinct_nodes] result == nil ==> all(k, "models.ShardID", (int(k) >= int(startShardID) && int(k) < old(cfg.NumOfShard)) ==> (has(shardAssignment.Shards, k) && len(shardAssignment.Shards[k].Replicas) == old(cfg.ReplicaFactor) && models.distinctReplicas(shardAssignment.Shards[k])))
 //@   ensures[error_cases] (old(cfg.NumOfShard) - old(len(shardAssignment.Shards)) <= 0 || old(cfg.ReplicaFactor) <= 0 || old(cfg.ReplicaFactor) > len(storageNodeIDs)) == (result != nil)
 //@   ensures[refused_changes_nothing] result != nil ==> all(k, "models.ShardID", has(shardAssignment.Shards, k) == old(has(shardAssignment.Shards, k)) && shardAssignment.Shards[k] == old(shardAssignment.Shards[k]))
 //@   ensures[growth_keeps_existing_shards] result == nil ==> all(k, "models.ShardID", old(has(shardAssignment.Shards, k)) ==> (has(shardAssignment.Shards, k) && shardAssignment.Shards[k] == old(shardAssignment.Shards[k]) && len(shardAssignment.Shards[k].Replicas) == old(len(shardAssignment.Shards[k].Replicas))))
